@@ -34,7 +34,7 @@ def mc_cfg():
 
 
 # ---------------------------------------------------------------- rendering
-SHAPES = ["none", "scalars", "nested_list", "nested_map", "lazy_inside", "eager_inside", "type_inside", "tok_inside"]
+SHAPES = ["none", "scalars", "nested_list", "nested_map", "lazy_inside", "eager_inside", "type_inside", "tok_inside", "oddkeys"]
 
 
 def shape_args(shape, form, i):
@@ -57,6 +57,8 @@ def shape_args(shape, form, i):
             "eager_inside": ("[!VEager [4, [5]], %d]" % i, (("eager", (4, [5]), {}), i)),
             # a bare tag whose factory makes an object (no template): a fresh one per occurrence
             "tok_inside": ("[!VTok , %d, [!VTok ]]" % i, ("TOK", i, ["TOK"])),
+            # nested mappings need not have string keys (YAML: 7:, false:, 2.5:, null:)
+            "oddkeys": ("[{7: %d, false: [2], 2.5: {x: 1}, null: n}, %d]" % (i, i), ({7: i, False: [2], 2.5: {"x": 1}, None: "n"}, i)),
         }
         y, a = table[shape]
         return y, a, {}
@@ -67,6 +69,7 @@ def shape_args(shape, form, i):
         "lazy_inside": ("{a: !VLazy {k: [1, %d]}}" % i, {"a": ("lazy", (), {"k": [1, i]})}),
         "eager_inside": ("{a: !VEager [4, [%d]]}" % i, {"a": ("eager", (4, [i]), {})}),
         "tok_inside": ("{a: !VTok , b: [%d, !VTok ]}" % i, {"a": "TOK", "b": [i, "TOK"]}),
+        "oddkeys": ("{a: {7: %d, false: [2], 2.5: {x: 1}, null: n}, b: [{3: {4: 5}}]}" % i, {"a": {7: i, False: [2], 2.5: {"x": 1}, None: "n"}, "b": [{3: {4: 5}}]}),
     }
     y, k = table[shape]
     return y, (), k
